@@ -84,4 +84,14 @@ def modification (fixed : Bool) (s : BSt) (name oldL newL : Nat) (script : List 
       | .ok (f', evs) =>
         if fileLen f' ≠ newL then .error "integrity dst" else .ok { (setFile s name f') with evs := evs }
 
+/-- handleRename: the tracked file moves to its new name (whatever was tracked there is overwritten) -/
+def renameFile (s : BSt) (src name : Nat) (f : List Fu.Node) : BSt := setFile (dropFile s src) name f
+
+/-- a rename reported together with an edit (handleModification with From.Name ≠ To.Name): an unknown old name makes it
+an insertion under the new name; otherwise the file is renamed and then edited under the new name -/
+def renamed (fixed : Bool) (s : BSt) (src name oldL newL : Nat) (script : List (EK × Nat)) : Except String BSt :=
+  match getFile s src with
+  | none => insertion fixed s name newL
+  | some f => modification fixed (renameFile s src name f) name oldL newL script
+
 end Bd
